@@ -23,6 +23,7 @@ def sh(cmd, **kw):
 
 def rerun_dir(d):
     """re-confirm and re-run the checks for a stored seeded change: seeded/<ID>-<k>/"""
+    d = os.path.abspath(d)
     meta = json.load(open(os.path.join(d, 'meta.json')))
     prop = meta['breaks']
     checks = sorted(set([prop] + list(meta.get('caught_by') or []) + [c for c in os.environ.get('SEED_CHECKS', '').split(',') if c]))
